@@ -589,3 +589,29 @@ package transport
 //@   ensures res1 == nil ==> r.i == res0 && res0 >= 0
 //@   ensures res1 != nil ==> r.i == old(r.i) && res0 == 0
 //@   ensures res1 == nil && whence == 0 ==> res0 == offset
+
+// ---------------------------------------------------------------- C11/C10: the two subprotocol message tables
+// Total and panic-free for any decoded frame; a frame becomes a `start` only if it is the subprotocol's
+// start/subscribe message, an `init` only if it is connection_init; the id is carried over unchanged; message
+// types the client must not send are rejected (graphql-transport-ws) and everything unknown yields an error.
+//@ func (graphqlwsMessage).toMessage [C11,C10]
+//@   nopanic
+//@   ensures res0.id == m.ID
+//@   ensures res1 == nil ==> (res0.t == startMessageType <==> m.Type == graphqlwsStartMsg)
+//@   ensures res1 == nil ==> (res0.t == initMessageType <==> m.Type == graphqlwsConnectionInitMsg)
+//@   ensures res1 == nil ==> (res0.t == stopMessageType <==> m.Type == graphqlwsStopMsg)
+//@   ensures res1 == nil ==> (res0.t == connectionCloseMessageType <==> m.Type == graphqlwsConnectionTerminateMsg)
+//@   ensures res1 != nil ==> res0.t == initMessageType
+//@ func (graphqltransportwsMessage).toMessage [C11,C10]
+//@   nopanic
+//@   ensures res0.id == m.ID
+//@   ensures res1 == nil ==> (res0.t == startMessageType <==> m.Type == graphqltransportwsSubscribeMsg)
+//@   ensures res1 == nil ==> (res0.t == initMessageType <==> m.Type == graphqltransportwsConnectionInitMsg)
+//@   ensures res1 == nil ==> (res0.t == stopMessageType <==> m.Type == graphqltransportwsCompleteMsg)
+//@   ensures res1 == nil ==> (res0.t == pingMessageType <==> m.Type == graphqltransportwsPingMsg)
+//@   ensures res1 == nil ==> (res0.t == pongMessageType <==> m.Type == graphqltransportwsPongMsg)
+//@   ensures m.Type == graphqltransportwsNextMsg || m.Type == graphqltransportwsErrorMsg || m.Type == graphqltransportwsConnectionAckMsg ==> res1 != nil
+//@ func (messageType).String [C10]
+//@   nopanic
+//@   pure
+//@   ensures calls(String) == 0
